@@ -212,11 +212,15 @@ def loop_exits(run, lc):
                         out.append(info["arms"][nme])
         return out
     term_arms = arm(("recv", "ctrl"), ["Some", "None"], cls_len=3)
+    if not term_arms and lc.ctrl_split_by_predicate():
+        term_arms = lc.ctrl_branch_targets() * 2      # both outcomes are handled by the one control-recv branch
     stop_arms = arm(("recv", "mailbox"), ["None"], cls_len=3) + arm(("recv", "mailbox"), [__import__("anchors").names(lc.f).stop], cls_len=4)
     err_arms = arm(("hook", "on_run"), ["Err"], cls_len=3)
     env_arms = arm(("recv", "mailbox"), [__import__("anchors").names(lc.f).envelope], cls_len=4)
     cont_arms = arm(("hook", "on_run"), ["true", "false"], kind="value", cls_len=4)
-    run.require(term_arms and stop_arms and err_arms and env_arms and len(cont_arms) == 2, "O7.4", "arms-found",
+    if not cont_arms:
+        cont_arms = arm(("hook", "on_run"), ["Ok"], cls_len=3)       # `Ok(keep) => idle = keep`: one continuing arm for both values
+    run.require(term_arms and stop_arms and err_arms and env_arms and len(cont_arms) in (1, 2), "O7.4", "arms-found",
                 "cannot identify the select! arms (term=%s stop=%s err=%s env=%s cont=%s)" % (term_arms, stop_arms, err_arms, env_arms, cont_arms), "all arms identified")
     sel_ctrl = []
     for bb, info in lc.switch_info.items():
